@@ -4,6 +4,7 @@ import JediModel.Model.ApiHelpers
 import JediModel.Lemmas.IterArgs
 import JediModel.Lemmas.IterArgsSpec
 import JediModel.Lemmas.SortKey
+import JediModel.Lemmas.ErrStart
 /-! C01 — the position contract of the query API: `validate_line_column`, stated over the
 constants the translator reads from `jedi/api/helpers.py` / `jedi/api/__init__.py`. -/
 namespace JediModel.Props.C01
@@ -353,6 +354,92 @@ example : (∀ n ∈ typedEqAfterAttribute, WF n) ∧ ∃ n ∈ typedEqAfterAttr
   · exact WF.leaf _ _ _ _ _ (by decide)
 
 end IterArgs
+
+/-! ## where does the statement of a name inside an error node start?
+
+`imports.follow_error_node_imports_if_possible` runs for every non-definition name that
+`infer` / `goto` / `help` / `get_references` (and `Name.goto` / `Name.infer`) meet.  For a name
+inside a parso `error_node` it scans the children of that node for `;` leaves in front of the
+name and then reads `nodes[0]` of `children[start_index:]` — `IndexError` if the slice is empty. -/
+section ErrStart
+open JediModel.ErrStart (Child firstNode startIndex scan)
+
+/-- the loop the translator found in the source is the modelled one: `start_index = 0`, break on
+`n.start_pos > name.start_pos` in front of `if n == ';': start_index = index + 1`, then
+`nodes = error_node.children[start_index:]` and `nodes[0].get_first_leaf().value`.  Another
+operator, bound, order, offset or separator makes this, and so the build, fail. -/
+theorem error_node_start_shape :
+    ErrStart.sourceSpec = ErrStart.stdSpec ∧ JediModel.Gen.C01.esSeparator = ";" ∧
+    JediModel.Gen.C01.esUse = ["nodes = error_node.children[start_index:]",
+                               "first_name = nodes[0].get_first_leaf().value"] := by decide
+
+/-- `stmt_start_total`: with the loop of the working tree `nodes[0]` exists — no `IndexError`
+leaves `follow_error_node_imports_if_possible` — for EVERY list of children (any number, any
+positions, any of them `;`) and every name that lies in a child `k` which is not itself a `;`
+leaf and behind which every further child starts after the name (children of a parso node are
+in text order).  Nothing is asked of the children in front of `k`, of the end of the name or of
+what follows the last `;`.  The statement found starts at or in front of the child of the name. -/
+theorem stmt_start_total (children : List Child) (nameStart nameEnd : ErrStart.Pos) (k : Nat)
+    (hk : k < children.length)
+    (hsemi : ∀ c, children[k]? = some c → c.semi = false)
+    (hafter : ∀ i c, k < i → children[i]? = some c → nameStart.lt c.start = true) :
+    ∃ s, firstNode ErrStart.sourceSpec children nameStart nameEnd = .ok s ∧ s ≤ k := by
+  rw [error_node_start_shape.1]
+  have h := ErrStart.scan_std_le nameStart children 0 0 k (by omega) hk hsemi hafter
+  refine ⟨startIndex ErrStart.stdSpec children nameStart nameEnd, ?_, ?_⟩
+  · unfold firstNode
+    have : startIndex ErrStart.stdSpec children nameStart nameEnd < children.length := by
+      unfold startIndex; simp only [ErrStart.stdSpec] at h ⊢; simp; omega
+    simp [this]
+  · unfold startIndex; simp only [ErrStart.stdSpec] at h ⊢; simp; omega
+
+/-- the slice `children[start_index:]` itself never starts behind the end of the list by more
+than nothing: `start_index ≤ len(children)`, for every list and every name -/
+theorem stmt_start_le_length (children : List Child) (nameStart nameEnd : ErrStart.Pos) :
+    startIndex ErrStart.sourceSpec children nameStart nameEnd ≤ children.length := by
+  rw [error_node_start_shape.1]
+  have h := ErrStart.scan_std_le_length nameStart children 0 0 (Nat.le_refl 0)
+  unfold startIndex; simp only [ErrStart.stdSpec] at h ⊢; simp; omega
+
+/-- the error node of `a = 1; b = a;;` as parso builds it: `a = 1`, `;`, `b = a`, `;` (the
+second `;` of the pair is an error leaf outside the node) -/
+def doubledSemicolon : List Child :=
+  [⟨(1, 0), false⟩, ⟨(1, 5), true⟩, ⟨(1, 7), false⟩, ⟨(1, 12), true⟩]
+
+/-- the boundary matters: the `a` of `b = a` ends where the last `;` starts.  Comparing with
+`name.end_pos` instead of `name.start_pos` counts that `;` as standing in front of the name: the
+slice is empty, `nodes[0]` raises `IndexError` (kernel-checked).  The loop of the working tree
+answers "the statement starts at child 2". -/
+theorem stmt_start_end_pos_raises :
+    firstNode { ErrStart.stdSpec with nameEnd := true } doubledSemicolon (1, 11) (1, 12)
+      = .error .indexError ∧
+    firstNode ErrStart.sourceSpec doubledSemicolon (1, 11) (1, 12) = .ok 2 := ⟨rfl, rfl⟩
+
+/-- the order of the two tests matters as well: with the `;` test in front of the break test the
+`;` BEHIND the name is counted before the loop stops -/
+theorem stmt_start_separator_first_raises :
+    firstNode { ErrStart.stdSpec with breakFirst := false } doubledSemicolon (1, 11) (1, 12)
+      = .error .indexError := rfl
+
+/-- and the hypothesis of `stmt_start_total` cannot be dropped: a list whose children are not in
+text order behind the name (no parso tree looks like this) makes the loop of the working tree
+raise -/
+theorem stmt_start_needs_tree_order :
+    firstNode ErrStart.sourceSpec [⟨(1, 4), false⟩, ⟨(1, 0), true⟩] (1, 4) (1, 5)
+      = .error .indexError := rfl
+
+/-- hypotheses of `stmt_start_total` are satisfiable by the doubled semicolon (name in child 2) -/
+example : (2 < doubledSemicolon.length) ∧
+    (∀ c, doubledSemicolon[2]? = some c → c.semi = false) ∧
+    (∀ i c, 2 < i → doubledSemicolon[i]? = some c → ErrStart.Pos.lt (1, 11) c.start = true) := by
+  refine ⟨by decide, ?_, ?_⟩
+  · intro c h; simp [doubledSemicolon] at h; subst h; rfl
+  · intro i c hi h
+    match i, hi with
+    | 3, _ => simp [doubledSemicolon] at h; subst h; decide
+    | i + 4, _ => simp [doubledSemicolon] at h
+
+end ErrStart
 
 /-! non-vacuity -/
 example : validate spec (splitLines ['a', 'b', '\r', '\n', 'c', 'd']) (some 1) (some 2) = .ok 1 2 := by decide
